@@ -242,6 +242,9 @@ def write_evidence(prop, tier, tot, viols, wall, planned, harness):
                                 if k.startswith('step.')),
             'layout_classes_reached': dict(layouts),
             'rare': {k: v for k, v in stats.items() if k.startswith('rare.')},
+            'swarm': {k: v for k, v in stats.items()
+                      if k.startswith('swarm.') or k.startswith('bias.')},
+            'continued_after_other_property_signal': stats.get('resync', 0),
             'other': {k: v for k, v in stats.items()
                       if k.split('.')[0] in ('merge', 'concat', 'result',
                                              'model', 'slot', 'c01', 'c02',
